@@ -347,7 +347,11 @@ class FunctionTerms:
                     q = self.prog.resolve(self.module, e)
                     if q is not None:
                         return self._global_chain(q)
-            return ("attr", self.ev(e.value, env, ctx), e.attr)
+            base = self.ev(e.value, env, ctx)
+            if base[0] == "global" and not (base[1].startswith("incomplete_cooperative.") and self.prog.global_value(base[1]) is not None):
+                # attribute of an imported module / class (also for function-local imports)
+                return self._global_chain(base[1] + "." + e.attr)
+            return ("attr", base, e.attr)
         if isinstance(e, ast.Call):
             f = self.ev(e.func, env, ctx)
             args = []
